@@ -22,6 +22,7 @@ void pseudo_op_fn(const char *name, const std::string &loc,
                   const std::function<void(uint64_t &, uint64_t &)> &act);
 /// give an address a canonical name (locks, payload cells, statics)
 void name_object(const void *addr, const std::string &name);
+void name_range(const void *addr, size_t len, const std::string &name);  // every location inside [addr, addr+len)
 /// reset allocation ordinals and names (per scenario)
 void reset_names();
 int current_tid();
